@@ -1,4 +1,7 @@
 // ===== prelude/std_assumed.rs (hand written => ASSUMED specifications of std functions vstd lacks) =====
 pub assume_specification<T: Clone> [<[T]>::fill] (s: &mut [T], v: T)
     ensures final(s)@.len() == old(s)@.len(), forall|i: int| 0 <= i < old(s)@.len() ==> final(s)@[i] == v;
+// rule R16: Vec<T> == Vec<T> for T = usize (std: element-wise comparison)
+#[verifier::external_body]
+pub fn vec_eq(a: &Vec<usize>, b: &Vec<usize>) -> (r: bool) ensures r == (a@ == b@) { a == b }
 // ===== end prelude/std_assumed.rs =====
